@@ -21,7 +21,7 @@ PYOPT = {'quick': 1, 'thorough': 1}     # one unit of every kind is also served 
 REQUIRED = ['units_run_under_python_-O', 'legal_exact', 'prefix_rejected', 'corruption_rejected', 'corruption_accepted', 'short_read_decodes',
             'wsgi_decodes', 'cut_in_size_line', 'cut_in_data', 'cut_after_data_cr', 'cut_in_last_chunk_line',
             'data_crlf_corruption_rejected', 'chunk_larger_than_buffer', 'with_extension', 'with_trailer',
-            'stalled_peer_decodes', 'decodes_with_1000_or_more_reads', 'chunked_bodies_declared_multipart']
+            'stalled_peer_decodes', 'decodes_with_1000_or_more_reads', 'chunked_bodies_declared_multipart', 'extension_with_bytes_that_are_not_utf8', 'legal_bodies_exactly_at_a_configured_limit']
 ASSUMPTIONS = ['wsgi.input.read(n) may return 1..n bytes while data is available (PEP 3333)',
                'exact decoding is demanded only when every size line (digits+extension+CRLF) fits the configured buffer, '
                'which bounds the size-line scan by design; longer size lines must give exact acceptance or a client error',
@@ -95,7 +95,9 @@ def encode(rng, payload, max_chunks=8, partition=None):
         line_start = len(out)
         put(hx.encode(), 'size')
         if rng.random() < 0.3:
-            ext = rng.choice([b';a=b', b';x', b';name="q v"', b';a=1;b=2', b';0', b';ff=10'])
+            ext = rng.choice([b';a=b', b';x', b';name="q v"', b';a=1;b=2', b';0', b';ff=10', b';file="r\xe9sum\xe9.txt"', b';\xff\xfe=\x80', b';n="\xc3"'])
+            if max(ext) > 127:
+                meta['ext_high'] = True
             put(ext, 'ext')
             meta['ext'] = True
         put(b'\r', 'scr')
@@ -180,11 +182,13 @@ def decode_direct(enc, buf, pdesc):
 _apps = {}
 
 
-def decode_wsgi(enc, buf, pdesc, ctype=None):
+def decode_wsgi(enc, buf, pdesc, ctype=None, limit=None):
     import ombott
-    app = _apps.get(buf)
+    app = _apps.get((buf, limit))
     if app is None:
-        app = _apps[buf] = ombott.Ombott({'max_memfile_size': buf})
+        if len(_apps) > 400:
+            _apps.clear()
+        app = _apps[(buf, limit)] = ombott.Ombott({'max_memfile_size': buf, 'max_body_size': limit})
 
         @app.route('/c', method='POST')
         def h():
@@ -249,7 +253,11 @@ def ref_decode(enc):
 def check_one(ctx, enc, buf, pdesc, mode, expect, payload, fits, what, extra='', ctype=None):
     """expect: 'exact' | 'reject' | 'any'"""
     if mode == 'wsgi':
-        verdict, val, st = decode_wsgi(enc, buf, pdesc, ctype)
+        # every other legal body meets a configured limit that its payload fills exactly: the limit counts payload, not framing
+        limit = len(payload) if (expect == 'exact' and payload is not None and len(enc) % 2 and what.startswith('legal')) else None
+        if limit is not None:
+            ctx.count('legal_bodies_exactly_at_a_configured_limit')
+        verdict, val, st = decode_wsgi(enc, buf, pdesc, ctype, limit)
         if ctype:
             ctx.count('chunked_bodies_declared_multipart')
     else:
@@ -314,6 +322,8 @@ def enc_unit(ctx, unit):
         enc, roles, meta = encode(rng, payload, max_chunks=8 if not big else 5)
         if meta['ext']:
             ctx.count('with_extension')
+        if meta.get('ext_high'):
+            ctx.count('extension_with_bytes_that_are_not_utf8')
         if meta['trailer']:
             ctx.count('with_trailer')
         # (a) legal decodes
